@@ -130,7 +130,52 @@ pub trait SimCfg: Config {
 #[derive(Default)]
 pub struct RunEnv {
     pub disk: Option<Disk>,
+    /// scratch directory of a real backend
+    pub dir: Option<std::path::PathBuf>,
 }
+
+macro_rules! real_cfg {
+    ($name:ident, $db:ty, $open:expr) => {
+        #[derive(
+            Debug, Clone, Copy, PartialEq, Eq, PartialOrd, Ord, Hash, Default, Identifiable,
+        )]
+        pub struct $name;
+
+        impl Config for $name {
+            type StorageEngine = DbBacked<$db>;
+            type BuildStableHasher = SeededStableHasherBuilder<Sip128Hasher>;
+            type BuildHasher = BuildHasherDefault<FxHasher>;
+        }
+
+        impl SimCfg for $name {
+            async fn open(cfg: &RunCfg, h: &Arc<Harness>, env: &RunEnv) -> Engine<Self> {
+                let cache_cap = match cfg.storage {
+                    Storage::Real { cache_cap, .. } => cache_cap,
+                    _ => 8,
+                };
+                let dir = env.dir.clone().expect("scratch directory");
+                let mut e = Engine::<$name>::new_with_options()
+                    .serialization_plugin(Plugin::default())
+                    .storage_engine_factory(
+                        DbBackedFactory::builder()
+                            .configuration(Configuration::builder().cache_capacity(cache_cap).build())
+                            .db_factory($open(dir))
+                            .build(),
+                    )
+                    .stable_hasher(SeededStableHasherBuilder::<Sip128Hasher>::new(0))
+                    .options(engine_options(cfg))
+                    .build()
+                    .await
+                    .expect("open real backend");
+                register_all(&mut e, h);
+                e
+            }
+        }
+    };
+}
+
+real_cfg!(RocksCfg, qbice::storage::kv_database::rocksdb::RocksDB, qbice::storage::kv_database::rocksdb::RocksDB::factory);
+real_cfg!(FjallCfg, qbice::storage::kv_database::fjall::Fjall, qbice::storage::kv_database::fjall::Fjall::factory);
 
 #[derive(
     Debug, Clone, Copy, PartialEq, Eq, PartialOrd, Ord, Hash, Default, Identifiable,
@@ -147,7 +192,7 @@ impl SimCfg for DbCfg {
     async fn open(cfg: &RunCfg, h: &Arc<Harness>, env: &RunEnv) -> Engine<Self> {
         let (cache_cap, ser_workers) = match cfg.storage {
             Storage::Db { cache_cap, ser_workers, .. } => (cache_cap, ser_workers),
-            Storage::Mem => (8, 1),
+            _ => (8, 1),
         };
         let mut e = Engine::<DbCfg>::new_with_options()
             .serialization_plugin(Plugin::default())
@@ -527,6 +572,8 @@ impl<'a, C: SimCfg> Runner<'a, C> {
     async fn open(&mut self) {
         if self.env.disk.is_some() {
             pipeline::reset(true);
+        } else if self.env.dir.is_some() {
+            pipeline::reset(false);
         }
         let e = C::open(&self.sc.cfg, &self.h, &self.env).await;
         self.engine = Some(Arc::new(e));
@@ -570,10 +617,19 @@ impl<'a, C: SimCfg> Runner<'a, C> {
         m: usize,
         k_prev: usize,
     ) -> Result<usize, Failure> {
+        self.check_recovered_env(RunEnv { disk: Some(disk), dir: None }, j, m, k_prev).await
+    }
+
+    pub(crate) async fn check_recovered_env(
+        &mut self,
+        env: RunEnv,
+        j: usize,
+        m: usize,
+        k_prev: usize,
+    ) -> Result<usize, Failure> {
         let prog = &self.sc.program;
         let h2 = Harness::new(prog.clone());
         *h2.world.lock() = self.h.world.lock().clone();
-        let env = RunEnv { disk: Some(disk) };
         pipeline::reset(false);
         let e = Arc::new(C::open(&self.sc.cfg, &h2, &env).await);
         let te = e.clone().tracked().await;
@@ -664,6 +720,18 @@ impl<'a, C: SimCfg> Runner<'a, C> {
 }
 
 fn run_generic<C: SimCfg>(sc: &Scenario, decisions: Option<&[Decision]>) -> Outcome {
+    run_generic_in::<C>(sc, decisions, None, None)
+}
+
+/// `real_dir`: scratch directory of a real backend.  `recover_only`: do not
+/// run the history, only open the store found there and check it against the
+/// committed input states of the history (C08, after a kill -9).
+pub(crate) fn run_generic_in<C: SimCfg>(
+    sc: &Scenario,
+    decisions: Option<&[Decision]>,
+    real_dir: Option<std::path::PathBuf>,
+    recover_only: Option<(Vec<std::collections::HashMap<u32, Val>>, bool)>,
+) -> Outcome {
     simkit::panics::install();
     crate::queries::install_hooks();
     let _ = simkit::panics::drain();
@@ -684,8 +752,9 @@ fn run_generic<C: SimCfg>(sc: &Scenario, decisions: Option<&[Decision]>) -> Outc
         env: RunEnv {
             disk: match sc.cfg.storage {
                 Storage::Db { group_max, .. } => Some(Disk::new(sc.cfg.sched_seed, group_max)),
-                Storage::Mem => None,
+                _ => None,
             },
+            dir: real_dir.clone(),
         },
         input_history: vec![std::collections::HashMap::new()],
         suspensions_seen: 0,
@@ -699,7 +768,38 @@ fn run_generic<C: SimCfg>(sc: &Scenario, decisions: Option<&[Decision]>) -> Outc
         stats: Stats::default(),
     };
     let res: Result<(), Failure> = rt.block_on(async {
-        let fut = AssertUnwindSafe(runner.run()).catch_unwind();
+        let fut = AssertUnwindSafe(async {
+            if let Some((hist, clean)) = &recover_only {
+                runner.input_history = hist.clone();
+                let (j, m) = if *clean { (1, 1) } else { (0, 1) };
+                // the world of external inputs as the history leaves it
+                for op in &sc.ops {
+                    if let Op::SetWorld { node, val } = op {
+                        runner.h.world.lock().insert(*node, val.clone());
+                        runner.model.world.insert(*node, val.clone());
+                    }
+                }
+                let env = RunEnv { disk: None, dir: runner.env.dir.clone() };
+                match runner.check_recovered_env(env, j, m, 0).await {
+                    Ok(k) => {
+                        let last = runner.input_history.len() - 1;
+                        let key = if k == 0 {
+                            "recovered_empty_store"
+                        } else if k == last {
+                            "recovered_last_session"
+                        } else {
+                            "recovered_earlier_session"
+                        };
+                        *runner.stats.probes.entry(key.into()).or_insert(0) += 1;
+                        Ok(())
+                    }
+                    Err(e) => Err(e),
+                }
+            } else {
+                runner.run().await
+            }
+        })
+        .catch_unwind();
         let r = match tokio::time::timeout(Duration::from_secs(3600), fut).await {
             Err(_) => Err(fail(
                 "hang",
@@ -789,9 +889,52 @@ fn run_generic<C: SimCfg>(sc: &Scenario, decisions: Option<&[Decision]>) -> Outc
     }
 }
 
+/// the committed input states S_0, S_1, ... of a history, computed without
+/// running it
+pub fn static_input_history(sc: &Scenario) -> Vec<std::collections::HashMap<u32, Val>> {
+    let mut cur: std::collections::HashMap<u32, Val> = std::collections::HashMap::new();
+    let mut out = vec![cur.clone()];
+    for op in &sc.ops {
+        if let Op::Session { steps, .. } = op {
+            for st in steps {
+                match st {
+                    SessStep::Set { node, val } => {
+                        cur.insert(*node, val.clone());
+                    }
+                    SessStep::Update { node, delta } => {
+                        let v = apply_update(cur.get(node), *delta);
+                        cur.insert(*node, v);
+                    }
+                    SessStep::Refresh => {}
+                }
+            }
+            out.push(cur.clone());
+        }
+    }
+    out
+}
+
+/// run (or recover) on a shipped backend in `dir`
+pub fn run_real(
+    sc: &Scenario,
+    dir: &std::path::Path,
+    recover_only: Option<(Vec<std::collections::HashMap<u32, Val>>, bool)>,
+) -> Outcome {
+    let backend = match &sc.cfg.storage {
+        Storage::Real { backend, .. } => backend.clone(),
+        _ => "rocksdb".into(),
+    };
+    if backend == "fjall" {
+        run_generic_in::<FjallCfg>(sc, None, Some(dir.to_path_buf()), recover_only)
+    } else {
+        run_generic_in::<RocksCfg>(sc, None, Some(dir.to_path_buf()), recover_only)
+    }
+}
+
 pub fn run_scenario(sc: &Scenario, decisions: Option<&[Decision]>) -> Outcome {
     match sc.cfg.storage {
         Storage::Mem => run_generic::<MemCfg>(sc, decisions),
         Storage::Db { .. } => run_generic::<DbCfg>(sc, decisions),
+        Storage::Real { .. } => panic!("real backends run through run_real"),
     }
 }
